@@ -158,7 +158,7 @@ class LSResult:
 @models.external("scipy.optimize.least_squares")
 def least_squares(engine, run, a, k):
     """Assumed contract of scipy.optimize.least_squares(fun, x0, bounds=(lb, ub), **params):
-    requires lb <= x0 <= ub and finite residuals at x0 (ValueError otherwise); fun is called only at points inside the bounds;
+    requires lb < ub (strictly), lb <= x0 <= ub and finite residuals at x0 (ValueError otherwise); fun is called only at points inside the bounds;
     ensures lb <= result.x <= ub, cost(result.x) <= cost(x0), and result.x == x0 if the residual at x0 is zero."""
     fun, x0 = a[0], a[1]
     lb, ub = k["bounds"]
@@ -179,6 +179,12 @@ def least_squares(engine, run, a, k):
         run.oblige(f"requires of least_squares: initial guess `{nm}` is not below its lower bound", c, kind="requires")
         c = le(x, u_)
         run.oblige(f"requires of least_squares: initial guess `{nm}` is not above its upper bound", c, kind="requires")
+        # scipy: "Each lower bound must be strictly less than each upper bound" (ValueError otherwise)
+        if isinstance(l_, SInf) or isinstance(u_, SInf):
+            strict = (isinstance(l_, SInf) and l_.sign < 0) or (isinstance(u_, SInf) and u_.sign > 0)
+        else:
+            strict = to_real(l_) < to_real(u_)
+        run.oblige(f"requires of least_squares: the lower bound of `{nm}` is strictly below its upper bound", strict, kind="requires")
     # the residual function is evaluated at the start and at arbitrary feasible points: it must not raise there
     run.ghost["ls"] = dict(x0=SArr(list(x0.elems)), lb=lb, ub=ub, params=dict((kk, vv) for kk, vv in k.items() if kk != "bounds"))
     res0 = engine.invoke(run, fun, [SArr(list(x0.elems))], {})
@@ -374,8 +380,18 @@ class RefineDroplet(Contract):
             out.append(("the bounds handed to least_squares are those of this droplet, the caller's options are forwarded",
                         "max_nfev" in ls["params"] and ls["params"]["max_nfev"] is c["params0"]["max_nfev"]))
         if case["adjust_values"]:
-            out.append(("with fitted intensity levels the parameter vector has two extra entries", len(x0) == len(exp0) + 1 + (
-                len(old.get("amplitudes").elems) if "amplitudes" in old.fields else 0) + 2))
+            # the two intensity parameters are fitted whenever there is an intensity range to fit; for a vanishing range (constant image over
+            # the fit region / vmin == vmax) their bounds would be degenerate and the droplet parameters alone are fitted
+            base = len(exp0) + 1 + (len(old.get("amplitudes").elems) if "amplitudes" in old.fields else 0)
+            if case["levels"] == "fixed":
+                vr = c["vmax"] - c["vmin"]
+            else:
+                rl = {attr: r for (cell, attr, r) in run.ghost.get("cell_reduction_list", [])}
+                vr = rl["max"] - rl["min"] if "max" in rl and "min" in rl else None
+            extra2 = z3.BoolVal(len(x0) == base + 2)
+            extra0 = z3.BoolVal(len(x0) == base)
+            out.append(("with fitted intensity levels the parameter vector has two extra entries (none when the intensity range vanishes)",
+                        z3.Or(extra2, extra0) if vr is None else z3.And(z3.Implies(vr != 0, extra2), z3.Implies(vr == 0, extra0))))
         return out
 
     # --- concrete side: real fits observed by wrapping least_squares as seen from droplets.image_analysis
